@@ -179,6 +179,7 @@ func newLog(r *rand.Rand) *gen.Log {
 }
 
 func opts(l *gen.Log, s *script, w feeder.Witness, logBranch int, logSize uint64, evs *[]event, mu *sync.Mutex) feeder.FeedOpts {
+	decorate := (logSize+uint64(logBranch))%2 == 1 // half of the checkpoints carry extension lines
 	v, _ := f_note.NewVerifier(l.Key.Vkey())
 	return feeder.FeedOpts{
 		LogID:          l.ID,
@@ -187,6 +188,11 @@ func opts(l *gen.Log, s *script, w feeder.Witness, logBranch int, logSize uint64
 		Witness:        w,
 		FetchCheckpoint: func(ctx context.Context) ([]byte, error) {
 			cp := l.Honest(logBranch, logSize)
+			if decorate {
+				// the log's checkpoint may carry extension lines and other parties' signature lines
+				text := refnote.Body(l.Origin, logSize, l.Root(logBranch, logSize), "Timestamp: 1700000000", "other extension")
+				cp = refnote.Assemble(text, l.Key.SigLine(text), "— someone.else AAAAAAAAAAAAAAAAAAAAAAAAAAAAAAAAAAAAAAAAAAAAAAAAAAAAAAAAAAAAAAAAAAAAAAAAAAAAAAAAAAAAAAAAAAAAAAAA")
+			}
 			mu.Lock()
 			*evs = append(*evs, event{Kind: "fetchcp", Ret: cp})
 			mu.Unlock()
